@@ -14,10 +14,11 @@ import (
 )
 
 type round struct {
-	Data []byte // bytes to send for this request
-	Segs []int  // write sizes, cycled (nil = one write)
-	End  string // fin (half-close, drain, close) | keep (wait for next request) | rst | hold
-	Hold int    // ms to keep the connection open before closing (hold)
+	Data  []byte // bytes to send for this request
+	Segs  []int  // write sizes, cycled (nil = one write)
+	End   string // fin (half-close, drain, close) | keep (wait for next request) | rst | hold
+	Hold  int    // ms to keep the connection open before closing (hold)
+	Pause int    // ms to wait after the first segment
 }
 
 type script struct {
@@ -164,6 +165,9 @@ func (p *rawPeer) serve(c net.Conn) {
 			data = data[n:]
 			if len(rd.Segs) > 0 && len(data) > 0 && i < 64 {
 				time.Sleep(200 * time.Microsecond) // let the segment arrive on its own
+				if i == 0 && rd.Pause > 0 {
+					time.Sleep(time.Duration(rd.Pause) * time.Millisecond)
+				}
 			}
 		}
 		switch rd.End {
